@@ -225,6 +225,104 @@ pub fn minimise(prop: &str, cfg: &WorldCfg, steps: &[Step], sig: &str, budget: u
     cur
 }
 
+/// try simpler worlds (fewer moving parts) while the same signature persists
+pub fn simplify_world(prop: &str, cfg: &WorldCfg, steps: &[Step], sig: &str) -> WorldCfg {
+    let mut cur = cfg.clone();
+    let mut tries: Vec<Box<dyn Fn(&WorldCfg) -> Option<WorldCfg>>> = vec![];
+    tries.push(Box::new(|c| {
+        if c.oracle == OracleKind::Real && c.kind == WorldKind::Standard {
+            let mut n = c.clone();
+            n.oracle = OracleKind::Mock;
+            Some(n)
+        } else {
+            None
+        }
+    }));
+    tries.push(Box::new(|c| {
+        if c.roles.owner != c.roles.pauser || c.roles.owner != c.roles.if_owner {
+            let mut n = c.clone();
+            let o = c.roles.owner.clone();
+            n.roles = Roles { owner: o.clone(), pauser: o.clone(), if_owner: o.clone(), fp_owner: o.clone(), pf_owner: o.clone(), vamm_owner: o };
+            Some(n)
+        } else {
+            None
+        }
+    }));
+    tries.push(Box::new(|c| {
+        if c.allowance.is_some() {
+            let mut n = c.clone();
+            n.allowance = None;
+            Some(n)
+        } else {
+            None
+        }
+    }));
+    for field in 0..6 {
+        tries.push(Box::new(move |c| {
+            let mut n = c.clone();
+            let mut changed = false;
+            for v in n.vamms.iter_mut() {
+                match field {
+                    0 if v.toll != 0 => {
+                        v.toll = 0;
+                        changed = true;
+                    }
+                    1 if v.spread != 0 => {
+                        v.spread = 0;
+                        changed = true;
+                    }
+                    2 if v.fluct != 0 => {
+                        v.fluct = 0;
+                        changed = true;
+                    }
+                    3 if v.oi_cap != 0 || v.holding_cap != 0 => {
+                        v.oi_cap = 0;
+                        v.holding_cap = 0;
+                        changed = true;
+                    }
+                    4 if v.twap_interval.is_some() => {
+                        v.twap_interval = None;
+                        changed = true;
+                    }
+                    5 if v.funding_period != 3600 => {
+                        v.funding_period = 3600;
+                        changed = true;
+                    }
+                    _ => {}
+                }
+            }
+            if changed {
+                Some(n)
+            } else {
+                None
+            }
+        }));
+    }
+    tries.push(Box::new(|c| {
+        // drop trailing vAMMs that no step refers to
+        let mut n = c.clone();
+        if n.vamms.len() > 1 {
+            n.vamms.pop();
+            Some(n)
+        } else {
+            None
+        }
+    }));
+    for t in tries.iter() {
+        if let Some(cand) = t(&cur) {
+            let uses_dropped = cand.vamms.len() < cur.vamms.len() && steps.iter().any(|s| s.op.vamm_idx().map(|v| v >= cand.vamms.len()).unwrap_or(false) || format!("{:?}", s.op).contains(&format!("@vamm{}", cand.vamms.len())));
+            if uses_dropped {
+                continue;
+            }
+            let ok = std::panic::catch_unwind(|| has_sig(&run_history(prop, &cand, steps, false), sig)).unwrap_or(false);
+            if ok {
+                cur = cand;
+            }
+        }
+    }
+    cur
+}
+
 pub struct BatchOut {
     pub runs: u64,
     pub evidence: Value,
@@ -464,13 +562,16 @@ pub fn run_batch(prop: &str, seed: u64, runs: u64, workers: usize, wall_cap_s: u
     for (sig, idx, v) in new_sigs.iter().take(6) {
         let rr = &results[*idx];
         let run = &rr.run;
-        let cfg = rr.world.clone().unwrap();
-        let min_steps = minimise(prop, &cfg, &rr.steps, sig, min_budget);
+        let cfg0 = rr.world.clone().unwrap();
+        let min_steps = minimise(prop, &cfg0, &rr.steps, sig, min_budget);
+        let cfg = simplify_world(prop, &cfg0, &min_steps, sig);
+        let min_steps = if cfg != cfg0 { minimise(prop, &cfg, &min_steps, sig, min_budget / 3) } else { min_steps };
         let check = run_history(prop, &cfg, &min_steps, false);
         let (final_steps, viol) = match check.ev.violations.iter().find(|x| x.signature == *sig) {
             Some(x) => (min_steps, x.clone()),
             None => (rr.steps.clone(), v.clone()),
         };
+        let cfg = if final_steps.len() == rr.steps.len() && cfg != cfg0 && !has_sig(&run_history(prop, &cfg, &final_steps, false), sig) { cfg0 } else { cfg };
         violations.push((
             ReplayFile { format: 1, property: prop.to_string(), signature: sig.clone(), seed, run: *run, world: cfg, steps: final_steps, violation: Some(viol), note: String::new() },
             true,
